@@ -871,6 +871,55 @@ def _inject_schema(outer_schema, inner_schema, ns="", is_injected=False):
             )
 
 
+def _inline_named_schemas(
+    schema: Schema, named_schemas: NamedSchemas, _defined: Optional[Set[str]] = None
+) -> Schema:
+    """Returns the parsed `schema` made self-contained: the first by-name
+    reference to a named type that is not defined inside `schema` itself (its
+    definition lives only in `named_schemas`, e.g. because it was parsed
+    separately) is replaced by that definition."""
+    defined: Set[str] = set() if _defined is None else _defined
+
+    if isinstance(schema, list):
+        return [_inline_named_schemas(s, named_schemas, defined) for s in schema]
+
+    if not isinstance(schema, dict):
+        if schema in PRIMITIVES or schema in defined or schema not in named_schemas:
+            return schema
+        definition = {
+            key: value
+            for key, value in named_schemas[schema].items()
+            if key not in ("__fastavro_parsed", "__named_schemas")
+        }
+        return _inline_named_schemas(definition, named_schemas, defined)
+
+    schema_type = schema["type"]
+    if schema_type in ("record", "error", "enum", "fixed") and "name" in schema:
+        defined.add(schema["name"])
+    if schema_type == "array":
+        inlined = dict(schema)
+        inlined["items"] = _inline_named_schemas(schema["items"], named_schemas, defined)
+        return inlined
+    if schema_type == "map":
+        inlined = dict(schema)
+        inlined["values"] = _inline_named_schemas(
+            schema["values"], named_schemas, defined
+        )
+        return inlined
+    if schema_type in ("record", "error"):
+        inlined = dict(schema)
+        fields = []
+        for field in schema.get("fields", []):
+            inlined_field = dict(field)
+            inlined_field["type"] = _inline_named_schemas(
+                field["type"], named_schemas, defined
+            )
+            fields.append(inlined_field)
+        inlined["fields"] = fields
+        return inlined
+    return schema
+
+
 def load_schema_ordered(
     ordered_schemas: List[str], *, _write_hint: bool = True
 ) -> Schema:
@@ -959,7 +1008,11 @@ def to_parsing_canonical_form(schema: Schema) -> str:
 
     """
     fo = StringIO()
-    _to_parsing_canonical_form(parse_schema(schema), fo)
+    named_schemas: NamedSchemas = {}
+    parsed_schema = parse_schema(schema, named_schemas)
+    # types that were parsed separately are only referred to by name
+    parsed_schema = _inline_named_schemas(parsed_schema, named_schemas)
+    _to_parsing_canonical_form(parsed_schema, fo)
     return fo.getvalue()
 
 
